@@ -4,6 +4,7 @@ package main
 // WA-CNT, WA-SEL, BT-NONNULL.
 
 import (
+	"regexp"
 	"fmt"
 	"go/token"
 	"go/types"
@@ -226,6 +227,10 @@ func ruleWARS(c *Ctx) {
 			c.Bad(key, pos, fmt.Sprintf("Skip can consume %q, which Read cannot: a skipped field of this type leaves the cursor in the wrong place", word(w2)))
 		default:
 			c.OK(key, pos, fmt.Sprintf("both consume %v", r.words(5, 6)))
+			if c.Extra == nil || c.Extra["wire_languages"] == nil {
+				c.Table("wire_languages", map[string][]string{})
+			}
+			c.Extra["wire_languages"].(map[string][]string)[ct.Name] = r.words(5, 6)
 		}
 	}
 }
@@ -782,75 +787,233 @@ func ruleBTNonNull(c *Ctx) {
 	c.Rule("BT-NONNULL", "the value branch's index is 1 exactly when null is the first branch and 0 when it is the second; the branch codec is built from that branch's schema; Read and Skip compare the decoded index with it", 5)
 	P := c.P
 	bt := getBT(P)
-	var ub *Builder
-	for _, b := range bt.Builders {
-		for _, p := range b.Paths {
-			if r := P.classifyReturn(p); r.Codec != nil && strings.HasPrefix(typeKey(r.Codec), "avro.union") && b.Fn.Pkg == P.Avro {
-				ub = b
+	hasNonNull := func(T types.Type) bool {
+		st, isS := T.Underlying().(*types.Struct)
+		if !isS {
+			return false
+		}
+		for i := 0; i < st.NumFields(); i++ {
+			if st.Field(i).Name() == "nonNull" {
+				return true
 			}
 		}
+		return false
 	}
-	if !c.Anchor(ub != nil && ub.Schema != nil, "union codec builder") {
-		return
-	}
-	u0 := "*(*(&" + ub.Schema.Name() + "->Union)[const:0]&->Type)"
-	u1 := "*(*(&" + ub.Schema.Name() + "->Union)[const:1]&->Type)"
-	seen := map[string]bool{}
-	for _, p := range ub.Paths {
-		r := P.classifyReturn(p)
-		if r.Codec == nil {
-			continue
-		}
-		name := typeKey(r.Codec)
-		if name == "avro.unionCodec" {
-			continue
-		}
-		// nonNull on this path: the last store to a nonNull field of the working literal
-		var nn int64
-		var nnLit *ssa.Alloc
+	// last store on the path to a field of the literal
+	lastStore := func(p *BTPath, lit ssa.Value, fld string) ssa.Value {
+		var v ssa.Value
 		for _, b := range p.Blocks {
 			for _, in := range b.Instrs {
-				if st, ok := in.(*ssa.Store); ok {
-					if fa, ok := st.Addr.(*ssa.FieldAddr); ok && fieldName(fa.X.Type(), fa.Field) == "nonNull" {
-						if k, isK := constInt(st.Val); isK {
-							nn = k
-							nnLit, _ = fa.X.(*ssa.Alloc)
+				st, ok := in.(*ssa.Store)
+				if !ok {
+					continue
+				}
+				if fa, ok := st.Addr.(*ssa.FieldAddr); ok && fa.X == lit && fieldName(fa.X.Type(), fa.Field) == fld {
+					v = st.Val
+				}
+			}
+		}
+		return v
+	}
+	// schemaArgOf: the Schema argument of the codec-building call that produced v
+	schemaArgOf := func(v ssa.Value) ssa.Value {
+		if ta, ok := v.(*ssa.Extract); ok {
+			if t, ok := ta.Tuple.(*ssa.TypeAssert); ok {
+				v = t.X
+			}
+		}
+		if ta, ok := v.(*ssa.TypeAssert); ok {
+			v = ta.X
+		}
+		call, _, ok := builtFrom(P, v)
+		if !ok {
+			return nil
+		}
+		for i, prm := range call.Call.StaticCallee().Params {
+			if typeKey(prm.Type()) == "avro.Schema" && i < len(call.Call.Args) {
+				return call.Call.Args[i]
+			}
+		}
+		return nil
+	}
+	unionBase := regexp.MustCompile(`\(&([A-Za-z_][A-Za-z0-9_]*)->Union\)\[`)
+	// judge decides one construction: on a path with state st, the value
+	// branch index is k (a constant) or the literal's own nonNull field
+	// (viaField), and the branch schema is schemaV.
+	judge := func(key, pos string, st *pathState, k int64, schemaV ssa.Value) {
+		pth := accessPath(stripLoadThroughLocal(schemaV))
+		m := unionBase.FindStringSubmatch(pth)
+		if m == nil {
+			c.Bad(key, pos, "the branch codec is not built from an element of the union's branch list ("+pth+")")
+			return
+		}
+		base := m[1]
+		u0 := "*(*(&" + base + "->Union)[const:0]&->Type)"
+		u1 := "*(*(&" + base + "->Union)[const:1]&->Type)"
+		idxOK := strings.Contains(pth, fmt.Sprintf("->Union)[const:%d]", k)) || strings.Contains(pth, "->Union)[") && strings.Contains(pth, "->nonNull)")
+		if !idxOK {
+			c.Bad(key, pos, fmt.Sprintf("nonNull is %d but the branch codec is built from %s", k, pth))
+			return
+		}
+		first := st.eq[u0] == "s:null"
+		second := st.eq[u1] == "s:null"
+		switch {
+		case first:
+			c.Check(k == 1, key, pos, "null first -> nonNull = 1, branch codec built from Union[1]", fmt.Sprintf("null is the first branch but nonNull is %d", k))
+		case second && st.ne[u0]["s:null"]:
+			c.Check(k == 0, key, pos, "null second -> nonNull = 0, branch codec built from Union[0]", fmt.Sprintf("null is the second branch but nonNull is %d", k))
+		default:
+			c.Bad(key, pos, "a nullable-union codec is built on a path where neither branch is known to be null")
+		}
+	}
+	usedAsValue := func(fn *ssa.Function) bool {
+		for _, g := range P.ModuleFuncs() {
+			for _, blk := range g.Blocks {
+				for _, in := range blk.Instrs {
+					for _, op := range in.Operands(nil) {
+						if *op == ssa.Value(fn) {
+							if ci, isCall := in.(ssa.CallInstruction); isCall && ci.Common().Value == ssa.Value(fn) {
+								continue
+							}
+							return true
 						}
 					}
 				}
 			}
 		}
-		first := p.State.eq[u0] == "s:null"
-		second := p.State.eq[u1] == "s:null"
-		key := fmt.Sprintf("%s/return[%s]/null-%s", fnKey(ub.Fn), name, map[bool]string{true: "first", false: "second"}[first])
-		if seen[key] {
-			continue
-		}
-		seen[key] = true
-		pos := P.pos(p.Ret.Pos())
-		switch {
-		case first:
-			c.Check(nn == 1, key, pos, "null first -> nonNull = 1", fmt.Sprintf("null is the first branch but nonNull is %d", nn))
-		case second && p.State.ne[u0]["s:null"]:
-			c.Check(nn == 0, key, pos, "null second -> nonNull = 0", fmt.Sprintf("null is the second branch but nonNull is %d", nn))
-		default:
-			c.Bad(key, pos, "a nullable-union codec is returned on a path where neither branch is known to be null")
-		}
-		_ = nnLit
+		return false
 	}
-	// the branch schema handed to the dispatcher is Union[nonNull]
-	for _, cs := range callsIn(ub.Fn) {
-		callee := bt.byFn[cs.Static]
-		if callee == nil || cs.Value() == nil {
+	sites := 0
+	seen := map[string]bool{}
+	for _, ub := range bt.Builders {
+		if ub.Fn.Pkg != P.Avro {
 			continue
 		}
-		// only the call in the nullable part: its schema argument is indexed by a loaded nonNull
-		arg := cs.Common.Args[0]
-		pth := accessPath(stripLoadThroughLocal(arg))
-		if strings.Contains(pth, "nonNull") {
-			ok := strings.Contains(pth, "->Union)[") && strings.Contains(pth, "->nonNull)")
-			c.Check(ok, fnKey(ub.Fn)+"/branch-schema", P.pos(cs.Instr.Pos()), "the branch codec is built from schema.Union[c.nonNull]", "the branch codec is not built from the non-null branch's schema")
+		for _, p := range ub.Paths {
+			r := P.classifyReturn(p)
+			if r.Codec == nil || !hasNonNull(r.Codec) || r.Lit == nil {
+				continue
+			}
+			sites++
+			name := typeKey(r.Codec)
+			pos := P.pos(p.Ret.Pos())
+			nnV := lastStore(p, r.Lit, "nonNull")
+			codecV := lastStore(p, r.Lit, "codec")
+			if codecV == nil {
+				codecV = r.Fields["codec"]
+			}
+			schemaV := schemaArgOf(codecV)
+			if schemaV == nil {
+				key := fmt.Sprintf("%s/return[%s]", fnKey(ub.Fn), name)
+				if !seen[key] {
+					seen[key] = true
+					c.Bad(key, pos, "the branch codec of a nullable union is not the result of building a codec from a schema")
+				}
+				continue
+			}
+			// a copy of another local literal's nonNull: the last store to that one
+			for i := 0; i < 3; i++ {
+				ld, ok := nnV.(*ssa.UnOp)
+				if !ok || ld.Op != token.MUL {
+					break
+				}
+				fa, ok := ld.X.(*ssa.FieldAddr)
+				if !ok || fieldName(fa.X.Type(), fa.Field) != "nonNull" {
+					break
+				}
+				if _, isLocal := fa.X.(*ssa.Alloc); !isLocal {
+					break
+				}
+				nnV = lastStore(p, fa.X, "nonNull")
+			}
+			var k int64
+			isConst := true
+			if nnV != nil {
+				k, isConst = constInt(nnV)
+			}
+			prmNN, _ := nnV.(*ssa.Parameter)
+			prmS, _ := schemaV.(*ssa.Parameter)
+			if ld, ok := schemaV.(*ssa.UnOp); ok && ld.Op == token.MUL && prmS == nil {
+				// a by-value struct parameter is spilled to a local
+				if a, ok := ld.X.(*ssa.Alloc); ok {
+					for _, rr := range referrersOf(a) {
+						if st, ok := rr.(*ssa.Store); ok && st.Addr == ssa.Value(a) {
+							if q, ok := st.Val.(*ssa.Parameter); ok {
+								prmS = q
+							}
+						}
+					}
+				}
+			}
+			switch {
+			case isConst && prmS == nil:
+				u0 := ""
+				if m := unionBase.FindStringSubmatch(accessPath(stripLoadThroughLocal(schemaV))); m != nil {
+					u0 = "*(*(&" + m[1] + "->Union)[const:0]&->Type)"
+				}
+				key := fmt.Sprintf("%s/return[%s]/null-%s", fnKey(ub.Fn), name, map[bool]string{true: "first", false: "second"}[p.State.eq[u0] == "s:null"])
+				if seen[key] {
+					continue
+				}
+				seen[key] = true
+				judge(key, pos, p.State, k, schemaV)
+			case prmNN != nil && prmS != nil:
+				// the index and the branch schema are both handed in: decide at every call site
+				hkey := fmt.Sprintf("%s/return[%s]", fnKey(ub.Fn), name)
+				if seen[hkey] {
+					continue
+				}
+				seen[hkey] = true
+				if usedAsValue(ub.Fn) {
+					c.Bad(hkey, pos, "a helper that receives the branch index is used as a value: its call sites cannot be enumerated")
+					continue
+				}
+				iNN, iS := -1, -1
+				for i, q := range ub.Fn.Params {
+					if q == prmNN {
+						iNN = i
+					}
+					if q == prmS {
+						iS = i
+					}
+				}
+				ncalls := 0
+				for _, caller := range bt.Builders {
+					for _, cp := range caller.Paths {
+						for _, cl := range cp.Calls {
+							if cl.Call.Call.StaticCallee() != ub.Fn {
+								continue
+							}
+							ncalls++
+							ck, isK := constInt(cl.Call.Call.Args[iNN])
+							key := fmt.Sprintf("%s/call[%s]/nonNull=%d", fnKey(caller.Fn), ub.Fn.Name(), ck)
+							if seen[key+name] {
+								continue
+							}
+							seen[key+name] = true
+							cpos := P.pos(cl.Call.Pos())
+							if !isK {
+								c.Bad(key, cpos, "the branch index handed to the nullable-union helper is not a constant")
+								continue
+							}
+							judge(key+"["+name+"]", cpos, cl.State, ck, cl.Call.Call.Args[iS])
+						}
+					}
+				}
+				if ncalls == 0 {
+					c.Bad(hkey, pos, "no call site of the nullable-union helper was found on any builder path")
+				}
+			default:
+				key := fmt.Sprintf("%s/return[%s]", fnKey(ub.Fn), name)
+				if !seen[key] {
+					seen[key] = true
+					c.Bad(key, pos, "the value branch's index is neither a constant nor a parameter paired with the branch schema")
+				}
+			}
 		}
+	}
+	if !c.Anchor(sites > 0, "construction of a nullable-union codec (a codec type with a nonNull field)") {
+		return
 	}
 	// Read and Skip of the nullable codecs compare with the field
 	for _, ct := range bt.Codecs {
